@@ -478,7 +478,7 @@ func c14CurveTable(r *Report, keyT interface{ String() string }) {
 			for _, c := range p.conds {
 				if c.Val && c.Pred.Op == "binop" && c.Pred.S == "==" {
 					for i := 0; i < 2; i++ {
-						if n, ok := termConstInt(c.Pred.Args[i]); ok && strings.HasPrefix(c.Pred.Args[1-i].String(), "res<0>(call<(*Key).deriveAlgorithm>") {
+						if n, ok := termConstInt(c.Pred.Args[i]); ok && strings.HasPrefix(c.Pred.Args[1-i].String(), "res<0>(call<"+shortFn(P.keyDerive())+">") {
 							alg, known = n, true
 						}
 					}
